@@ -29,6 +29,9 @@ type cshape struct {
 	fofe bool // fail-on-first-error
 }
 
+// c02LowThreshold lowers the pool's too-many-tasks threshold in c02Make.
+var c02LowThreshold bool
+
 func n(name string, ch ...*cnode) *cnode { return &cnode{name: name, children: ch} }
 
 var c02Shapes = []cshape{
@@ -240,6 +243,12 @@ func c02Make(shapes []cshape, workers int, finish bool) func() (func(), func(e *
 		body := func() {
 			s = &c02State{proc: engine.NewProcessor(workers), fofe: shapes[0].fofe}
 			s.proc.SetFailOnFirstErrorInTriggerSequence(s.fofe)
+			if c02LowThreshold {
+				// the load regulation of the pool (queue-is-filling-up warning) is
+				// reached with a single queued task instead of ten
+				s.proc.ThreadPool().TooManyThreshold = 1
+				s.proc.ThreadPool().TooManyCallback = func() {}
+			}
 			for i, sh := range shapes {
 				c := &c02Casc{id: i, root: sh.root(), started: map[string]int{}, finished: map[string]int{}}
 				s.cascs = append(s.cascs, c)
@@ -309,6 +318,23 @@ func init() {
 			register(&Scenario{Prop: "C02", Name: fmt.Sprintf("%s-w%d", sh.name, w), Quick: q, Thor: t,
 				Desc: fmt.Sprintf("cascade %s on %d worker(s): AddEventAndWait, oracle at the instant of return and at quiescence", sh.name, w),
 				Make: c02Make([]cshape{sh}, w, w == 1)})
+		}
+	}
+	// the pool's load regulation inside the cascade: threshold 1
+	for _, idx := range []int{1, 2} {
+		for _, w := range []int{1, 2} {
+			sh, w := c02Shapes[idx], w
+			mk := c02Make([]cshape{sh}, w, false)
+			register(&Scenario{Prop: "C02", Name: fmt.Sprintf("%s-w%d-loadregulation", sh.name, w), Quick: 1, Thor: 2,
+				Desc: fmt.Sprintf("cascade %s on %d worker(s) with the pool's too-many-tasks threshold at 1 (the regulation code runs on every add and every empty dequeue)", sh.name, w),
+				Make: func() (func(), func(e *vsched.Exec) (string, *vsched.Violation)) {
+					b, c := mk()
+					return func() {
+						c02LowThreshold = true
+						defer func() { c02LowThreshold = false }()
+						b()
+					}, c
+				}})
 		}
 	}
 	// two cascades in flight at once (own root monitors, separate adder threads)
